@@ -1766,6 +1766,37 @@ get_preprocessor_args(int c, string &args) {
           args += next_c;
         }
       }
+    } else if (c == '"' ||
+               (c == '\'' && (args.empty() || !isalnum(args[args.size() - 1])))) {
+      // A string or character literal (an apostrophe after a digit is a digit
+      // separator).  Copy it up to the closing quote as it is: what looks
+      // like a comment inside it ("http://...") is part of the literal.
+      int quote_mark = c;
+      args += c;
+      c = get();
+      while (c != EOF && c != '\n' && c != quote_mark) {
+        if (c == '\\') {
+          int next_c = get();
+          if (next_c == '\n') {
+            args += '\n';
+            c = get();
+            continue;
+          }
+          args += c;
+          if (next_c == EOF) {
+            c = next_c;
+            break;
+          }
+          c = next_c;
+        }
+        args += c;
+        c = get();
+      }
+      if (c != quote_mark) {
+        // Unterminated; the line (or the file) ends here.
+        continue;
+      }
+      args += c;
     } else {
       args += c;
     }
